@@ -26,6 +26,7 @@ import (
 	"github.com/containers/nri-plugins/pkg/kubernetes"
 	"github.com/containers/nri-plugins/pkg/resmgr"
 	"github.com/containers/nri-plugins/pkg/resmgr/cache"
+	cpucontrol "github.com/containers/nri-plugins/pkg/resmgr/control/cpu"
 	libmem "github.com/containers/nri-plugins/pkg/resmgr/lib/memory"
 	policyapi "github.com/containers/nri-plugins/pkg/resmgr/policy"
 	"github.com/containers/nri-plugins/pkg/sysfs"
@@ -562,6 +563,14 @@ func (w *World) State() tr.M {
 	}
 	sort.Strings(pend)
 	st := tr.M{"ctr": ctr, "pods": pods, "pend": pend, "mem": memView(w.allocator())}
+	if w.Spec.Policy == "balloons" {
+		cls := []tr.M{}
+		for name, cpus := range cpucontrol.VerifClassAssignments(ch) {
+			cls = append(cls, tr.M{"class": name, "cpus": tr.Ints(cpus)})
+		}
+		sort.Slice(cls, func(i, j int) bool { return cls[i]["class"].(string) < cls[j]["class"].(string) })
+		st["cpuclass"] = cls
+	}
 	if w.Spec.Policy == "ta" {
 		st["pol"] = ta.VerifSnapshot(w.H.Backend())
 	} else {
